@@ -126,6 +126,7 @@ pub struct World {
     /// hard cap on processed events per run (a message storm must not exhaust memory)
     pub max_events: u64,
     pub runaway: bool,
+    pub acc_twin: bool,
 }
 
 impl World {
@@ -159,6 +160,7 @@ impl World {
             feed_log: Vec::new(),
             max_events: 1_500_000,
             runaway: false,
+            acc_twin: false,
             wc,
         }
     }
@@ -194,6 +196,7 @@ impl World {
             policy: self.wc.policy,
             hcfg: self.wc.hcfg,
             rng_seed: mix3(self.seed, name_hash("foca-rng"), ((addr as u64) << 32) | self.proc_epochs[i] as u64),
+            acc_twin: self.acc_twin,
         }
     }
 
@@ -252,6 +255,12 @@ impl World {
         }
         let post = p.node.obs();
         let mut vs = Vec::new();
+        if let Some(m) = &rec.twin_mismatch {
+            vs.push(Violation { property: "C08", tag: "C08/accumulating-runtime-differs".into(), detail: format!("{}: {m}", rec.input.kind()), at: now });
+        }
+        if p.node.twin.is_some() {
+            self.stats.inc("c08_accumulating_runtime_twin_calls");
+        }
         p.monitors.step(&pre, &rec, &post, now, &mut vs, &mut self.stats);
         p.obs = post;
         let epoch = p.epoch;
